@@ -1,5 +1,5 @@
 (* C05 — Bitcoin/testnet3: every output script gets the reference type and address. Pinned statements only: each theorem is closed by `exact` of a lemma proved in theories/. *)
-From RBP Require Import Bytes Hashes Codec Base58 Bech32 Segwit Utf8 ScriptCustom CustomTop ScriptCustomP ScriptBtc ScriptBtcP ScriptBtcSpec Wire Block Index Model OpReturnP MultisigP.
+From RBP Require Import Bytes Hashes Codec Base58 Bech32 Segwit Utf8 ScriptCustom CustomTop ScriptCustomP ScriptBtc ScriptBtcP ScriptBtcSpec Wire Block Index Model OpReturnP MultisigP ScriptBtcComplete.
 From RBP Require Drive Merkle Utxo Stats OutProto Reader Published Misc.
 
 Theorem C05_p2pkh_shape :
@@ -122,6 +122,46 @@ Theorem C05_not_recognised_has_no_address :
   forall (n : net) (l : bytes), fst (eval_btc n l) = BNotRecognised -> snd (eval_btc n l) = None.
 Proof. exact not_recognised_has_no_address. Qed.
 
+Theorem C05_multisig_iff :
+  forall (n : net) (l : bytes), wfb l = true -> fst (eval_btc n l) = BMultiSig <-> (exists (m : N) (keys : list (pform * bytes)), Forall (fun fk : pform * bytes => pfits (fst fk) (snd fk)) keys /\ 1 <= m /\ m <= N.of_nat (length keys) /\ N.of_nat (length keys) <= 16 /\ l = ms_script m keys).
+Proof. exact multisig_iff. Qed.
+
+Theorem C05_is_multisig_iff :
+  forall l : bytes, wfb l = true -> is_multisig l = true <-> (exists (m : N) (keys : list (pform * bytes)), Forall (fun fk : pform * bytes => pfits (fst fk) (snd fk)) keys /\ 1 <= m /\ m <= N.of_nat (length keys) /\ N.of_nat (length keys) <= 16 /\ l = ms_script m keys).
+Proof. exact is_multisig_iff. Qed.
+
+Theorem C05_p2pkh_iff :
+  forall (n : net) (l : bytes), fst (eval_btc n l) = BP2PKH <-> (exists h : list N, length h = 20%nat /\ l = [118; 169; 20] ++ h ++ [136; 172]).
+Proof. exact p2pkh_iff. Qed.
+
+Theorem C05_p2sh_iff :
+  forall (n : net) (l : bytes), fst (eval_btc n l) = BP2SH <-> (exists h : list N, length h = 20%nat /\ l = [169; 20] ++ h ++ [135]).
+Proof. exact p2sh_iff. Qed.
+
+Theorem C05_p2pk_iff :
+  forall (n : net) (l : bytes), fst (eval_btc n l) = BP2PK <-> (exists k : list N, (length k = 33%nat \/ length k = 65%nat) /\ l = [N.of_nat (length k)] ++ k ++ [172]).
+Proof. exact p2pk_iff. Qed.
+
+Theorem C05_witness_iff :
+  forall (n : net) (l : bytes), fst (eval_btc n l) = BP2WPKH \/ fst (eval_btc n l) = BP2WSH \/ fst (eval_btc n l) = BP2TR \/ fst (eval_btc n l) = BWitnessProgram <-> (exists (v : N) (prog : list N), v <= 16 /\ (2 <= length prog <= 40)%nat /\ l = [wit_opcode v; N.of_nat (length prog)] ++ prog).
+Proof. exact witness_iff. Qed.
+
+Theorem C05_witness_type_exact :
+  forall (n : net) (v : N) (prog : list N), v <= 16 -> (2 <= length prog <= 40)%nat -> fst (eval_btc n ([wit_opcode v; N.of_nat (length prog)] ++ prog)) = wit_type v (length prog).
+Proof. exact witness_type_exact. Qed.
+
+Theorem C05_unspendable_iff :
+  forall (n : net) (l : bytes), fst (eval_btc n l) = BUnspendable <-> (exists (c : N) (r : list N), l = c :: r /\ c <> 106 /\ return_or_illegal c = true).
+Proof. exact unspendable_iff. Qed.
+
+Theorem C05_not_recognised_iff :
+  forall (n : net) (l : bytes), wfb l = true -> fst (eval_btc n l) = BNotRecognised <-> (forall r : list N, l <> 106 :: r) /\ (forall (c : N) (r : list N), l = c :: r -> return_or_illegal c = false) /\ (forall k : list N, length k = 33%nat \/ length k = 65%nat -> l <> [N.of_nat (length k)] ++ k ++ [172]) /\ (forall h : list N, length h = 20%nat -> l <> [118; 169; 20] ++ h ++ [136; 172]) /\ (forall h : list N, length h = 20%nat -> l <> [169; 20] ++ h ++ [135]) /\ ~ witness_shaped l /\ (forall (m : N) (keys : list (pform * bytes)), Forall (fun fk : pform * bytes => pfits (fst fk) (snd fk)) keys -> 1 <= m -> m <= N.of_nat (length keys) -> N.of_nat (length keys) <= 16 -> l <> ms_script m keys).
+Proof. exact not_recognised_iff. Qed.
+
+Theorem C05_verdict_branch :
+  forall (n : net) (l : bytes), match fst (eval_btc n l) with | BOpReturn _ => exists r : list N, l = 106 :: r | BMultiSig => is_multisig l = true /\ witness_version l = None | BP2PK => exists k : bytes, p2pk_key l = Some k | BP2PKH => is_p2pkh l = true /\ p2pk_key l = None | BP2SH => is_p2sh l = true | BP2WPKH => is_p2wpkh l = true | BP2WSH => is_p2wsh l = true | BWitnessProgram => (exists v : N, witness_version l = Some v) /\ is_p2wpkh l = false /\ is_p2wsh l = false /\ is_p2tr l = false | BP2TR => is_p2tr l = true | BUnspendable => exists (c : N) (r : list N), l = c :: r /\ c <> 106 /\ return_or_illegal c = true | BNotRecognised => l = [] \/ (exists (c : N) (r : list N), l = c :: r /\ c <> 106 /\ return_or_illegal c = false) /\ p2pk_key l = None /\ is_p2pkh l = false /\ is_p2sh l = false /\ witness_version l = None /\ is_multisig l = false end.
+Proof. exact eval_btc_type_inv. Qed.
+
 Print Assumptions C05_p2pkh_shape.
 Print Assumptions C05_p2sh_shape.
 Print Assumptions C05_p2pk_shape.
@@ -152,3 +192,13 @@ Print Assumptions C05_multisig_shape_accepted.
 Print Assumptions C05_multisig_verdict.
 Print Assumptions C05_address_only_for_address_types.
 Print Assumptions C05_not_recognised_has_no_address.
+Print Assumptions C05_multisig_iff.
+Print Assumptions C05_is_multisig_iff.
+Print Assumptions C05_p2pkh_iff.
+Print Assumptions C05_p2sh_iff.
+Print Assumptions C05_p2pk_iff.
+Print Assumptions C05_witness_iff.
+Print Assumptions C05_witness_type_exact.
+Print Assumptions C05_unspendable_iff.
+Print Assumptions C05_not_recognised_iff.
+Print Assumptions C05_verdict_branch.
